@@ -829,7 +829,7 @@ HARNESSES = [
                               {"entry": "df", "ne": 1, "n": 2, "bc": "n1", "aslist": True}, {"entry": "df", "ne": 2, "n": 2, "bc": "1n"},
                               {"entry": "interdiff", "ne": 1, "n": 2, "bc": "1n"}, {"entry": "interdiff", "ne": 2, "n": 2, "bc": "nn"}, {"entry": "interdiff", "ne": 1, "n": 2, "bc": "nn", "col": True},
                               {"entry": "tracer", "ne": 1, "n": 2, "bc": "n1"}, {"entry": "tracer", "ne": 2, "n": 2, "bc": "1n"},
-                              {"entry": "ifc_bin", "n": 2, "bc": "nn"}, {"entry": "ifc_bin", "n": 3, "bc": "1n"}, {"entry": "ifc_bin", "n": 2, "bc": "n1"},
+                              {"entry": "ifc_bin", "n": 2, "bc": "nn"}, {"entry": "ifc_bin", "n": 3, "bc": "nn"}, {"entry": "ifc_bin", "n": 3, "bc": "1n"}, {"entry": "ifc_bin", "n": 2, "bc": "n1"},
                               {"entry": "ifc_multi", "ne": 2, "n": 2, "bc": "nn"}, {"entry": "ifc_multi", "ne": 2, "n": 2, "bc": "1n"},
                               {"entry": "growth", "ne": 2, "n": 2}],
                     "thorough": [{"entry": e, "ne": ne, "n": n, "bc": bc, "col": col} for e in ("df", "interdiff", "tracer") for ne in (1, 2, 3) for n in (2, 3)
